@@ -316,6 +316,27 @@ def selectScan (strict : Bool) (kids : Kids) :
       if sub = [] then selectScan strict kids rest src grp (k :: whole)
       else selectScan strict kids rest src (groupAdd k sub grp) whole
 
+/-- second loop of `_select`: every group is handed to `f` (the recursive `_select` of the nested tensordict).
+A key that was also selected as a whole is only checked (strict) — `fix:` commit; with `inplace` the nested
+tensordict is pruned in place, which the receiver sees at once (`cur`), also when a later group raises. -/
+def selectGroups (f : List Path → Bool → Bool → Entry → Entry × Except Err Entry) (strict inplace : Bool)
+    (whole : List String) : List (String × List Path) → Kids → Kids → Kids × Except Err Kids
+  | [], cur, src => (cur, .ok src)
+  | (k, subs) :: r, cur, src =>
+    match dget k src with
+    | none => selectGroups f strict inplace whole r cur src
+    | some child =>
+      if whole.contains k then
+        if strict then
+          match (f subs true false child).2 with
+          | .error e => (cur, .error e)
+          | .ok _ => selectGroups f strict inplace whole r cur src
+        else selectGroups f strict inplace whole r cur src
+      else
+        match f subs strict inplace child with
+        | (child', .error e) => (if inplace then dset k child' cur else cur, .error e)
+        | (child', .ok c) => selectGroups f strict inplace whole r (if inplace then dset k child' cur else cur) (dset k c src)
+
 /-- `_select(*keys, strict, inplace)` on a node. Returns (the receiver afterwards, result).
 With `inplace` the nested nodes are pruned in place group by group, so a call that raises in a later
 group has already pruned the earlier ones; the receiver's own storage is swapped only at the end.
@@ -327,25 +348,7 @@ def selectF : Nat → List Path → Bool → Bool → Entry → Entry × Except 
     match selectScan strict kids keys [] [] [] with
     | .error e => (.node kids, .error e)
     | .ok (src, grp, whole) =>
-      let rec groups : List (String × List Path) → Kids → Kids → Kids × Except Err Kids
-        | [], cur, src => (cur, .ok src)
-        | (k, subs) :: r, cur, src =>
-          match dget k src with
-          | none => groups r cur src
-          | some child =>
-            if whole.contains k then
-              if strict then
-                match (selectF fuel subs true false child).2 with
-                | .error e => (cur, .error e)
-                | .ok _ => groups r cur src
-              else groups r cur src
-            else
-              let (child', res) := selectF fuel subs strict inplace child
-              let cur := if inplace then dset k child' cur else cur
-              match res with
-              | .error e => (cur, .error e)
-              | .ok c => groups r cur (dset k c src)
-      match groups grp kids src with
+      match selectGroups (selectF fuel) strict inplace whole grp kids src with
       | (cur, .error e) => (.node cur, .error e)
       | (cur, .ok src) => if inplace then (.node src, .ok (.node src)) else (.node cur, .ok (.node src))
 
